@@ -27,5 +27,12 @@ def note_option_to_dbml(note: 'Note') -> str:
         return f"note: '{prepare_text_for_dbml(note.text)}'"
 
 
+def name_to_dbml(name: str) -> str:
+    '''Wrap the name in double quotes unless it is a plain word'''
+    if re.fullmatch(r'[A-Za-z0-9_]+', name):
+        return name
+    return f'"{name}"'
+
+
 def comment_to_dbml(val: str) -> str:
     return comment(val, '//')
